@@ -290,6 +290,17 @@ func (r *Route) goodRegexString(n, v string) {
 	}
 }
 
+// check the compiled regex: every capturing group must belong to exactly one path var,
+// because the i-th submatch is stored under the i-th var name on match.
+func (r *Route) goodRegexGroups() {
+	if num := r.regex.NumSubexp(); num != len(r.matches) {
+		goutil.Panicf(
+			"invalid route path, dont allow capturing group '(' in the path or var regex. path: %s, vars: %d, groups: %d",
+			r.path, len(r.matches), num,
+		)
+	}
+}
+
 // check start string and match a regex route
 func (r *Route) match(path string) (ps Params, ok bool) {
 	// check start string
